@@ -57,6 +57,17 @@ static void run() {
                 run_case(cfg, wire(serial, rp::make_request(serial, false, mem16, (uint16_t)n, 0x4000, (uint32_t)n, {})), "read-size-around-transmit-limit");
             }
         }
+        // (2b) the same with every checksum-option combination the receiver accepts (the header in front of the answer is 12..16 octets long)
+        for (int hd = 0; hd < 2; hd++) for (int pl = 0; pl < 2; pl++) {
+            size_t h2 = 12 + 2 * (size_t)hd + 2 * (size_t)pl;
+            if (capacity <= h2) continue;
+            long limit = (long)((capacity - h2) / (mem16 ? 2 : 1));
+            for (long n = limit - 3; n <= limit + 3; n++) {
+                if (n < 0 || !mine()) continue;
+                rp::Frame f; f.type = rp::READ_REQ; f.options = (mem16 ? rp::WORD16 : 0) | (hd ? rp::HDCRC : 0) | (pl ? rp::PLCRC : 0); f.seq = (uint16_t)(n * 3 + hd); f.addr = 0x5000 + (uint32_t)n; f.blocksize = (uint32_t)n;
+                run_case(cfg, rp::on_wire(serial, rp::encode(f)), "read-size-around-limit-noncanonical-options");
+            }
+        }
         // (4) empty and short frames
         for (size_t len = 0; len <= 11; len++) {
             if (!mine()) continue;
